@@ -13,6 +13,7 @@ import json
 import os
 
 import ir
+import inline
 from ir import walk, unwrap, show
 from absint import AbsInt
 from accesses import Analyzer, zero_trip_roots
@@ -26,7 +27,8 @@ def cycle_functions(units):
     for u in units.values():
         for f in u.funcs:
             if f.q in ('amgcl::amg::cycle', 'amgcl::mpi::amg::cycle') and len(f.params) == 3 and f.cfg is not None:
-                yield u, f
+                # helpers of the amg class that hold parts of the cycle (extracted methods) are analysed in place
+                yield u, inline.expand(f, inline.same_class_helper(keep=('cycle', 'apply')))
 
 
 def arg_root(an, f, arg):
